@@ -54,4 +54,6 @@ def verdict_job(job):
 
 
 def main(tier):
-    return common.run_space_check("C05", tier, jobs(tier), RULE, ASSUME, budget_s=115 if tier == "quick" else 1700)
+    js = jobs(tier)
+    js += common.staged(js, stride=6 if tier == "quick" else 2, kinds=("solve", "init"))
+    return common.run_space_check("C05", tier, js, RULE, ASSUME, budget_s=480 if tier == "quick" else 3000)
